@@ -7,9 +7,9 @@ pub struct CompB(pub u64);
 pub struct CompZ;
 
 ecs_world! {
+    ecs_archetype!(ArchNil, CompZ);          // never used and declared FIRST: its logs stay empty, the iterators must skip it
     ecs_archetype!(ArchFoo, CompA, CompB);
     ecs_archetype!(ArchBar, CompA, CompZ);
-    ecs_archetype!(ArchNil, CompZ);          // never used: its logs stay empty
 }
 
 // ---- C17 (bounded: 3 archetypes, 3 creations through both creation paths, one destroy through a SYMBOLIC key kind):
@@ -18,7 +18,7 @@ ecs_world! {
 #[kani::proof]
 #[kani::unwind(6)]
 fn world_events_exact_with_size_hint() {
-    let mut world = EcsWorld::with_capacity(EcsWorldCapacity { arch_foo: 2, arch_bar: 1, arch_nil: 0 });
+    let mut world = EcsWorld::with_capacity(EcsWorldCapacity { arch_nil: 0, arch_foo: 2, arch_bar: 1 });
     let a = world.create::<ArchFoo>((CompA(1), CompB(10)));
     let a2 = world.create_within_capacity::<ArchFoo>((CompA(2), CompB(20))).ok().unwrap();
     let b = world.create::<ArchBar>((CompA(3), CompZ));
@@ -45,27 +45,28 @@ fn world_events_exact_with_size_hint() {
     assert!(world.iter_destroyed().size_hint() == (0, Some(0)));
     let kind: u8 = kani::any();
     kani::assume(kind < 4);
-    let a_dir = world.to_direct(a).unwrap();
-    let a_dir_any: EntityDirectAny = a_dir.into();
+    // destroy in the LAST archetype: the destroyed logs of the archetypes declared before it are empty
+    let b_dir = world.to_direct(b).unwrap();
+    let b_dir_any: EntityDirectAny = b_dir.into();
     match kind {
-        0 => { world.destroy(a); }
-        1 => { world.destroy(EntityAny::from(a)); }
-        2 => { world.destroy(a_dir); }
-        _ => { world.destroy(a_dir_any); }
+        0 => { world.destroy(b); }
+        1 => { world.destroy(EntityAny::from(b)); }
+        2 => { world.destroy(b_dir); }
+        _ => { world.destroy(b_dir_any); }
     }
     {
         let mut it = world.iter_destroyed();
         assert!(it.size_hint() == (1, Some(1)));
-        assert!(*it.next().unwrap() == EntityAny::from(a));
+        assert!(*it.next().unwrap() == EntityAny::from(b));
         assert!(it.size_hint() == (0, Some(0)));
         assert!(it.next().is_none());
     }
-    assert!(world.archetype::<ArchFoo>().iter_destroyed().count() == 1);
-    assert!(world.archetype::<ArchBar>().iter_destroyed().count() == 0 && world.archetype::<ArchBar>().iter_created().count() == 1);
+    assert!(world.archetype::<ArchBar>().iter_destroyed().count() == 1);
+    assert!(world.archetype::<ArchFoo>().iter_destroyed().count() == 0 && world.archetype::<ArchFoo>().iter_created().count() == 2);
     // the created log is unaffected by the destroy
     assert!(world.iter_created().size_hint() == (3, Some(3)));
     world.clear_events();
     assert!(world.iter_created().next().is_none() && world.iter_destroyed().next().is_none());
     assert!(world.iter_created().size_hint() == (0, Some(0)));
-    assert!(world.contains(a2) && world.contains(b) && !world.contains(a));
+    assert!(world.contains(a2) && world.contains(a) && !world.contains(b));
 }
